@@ -10,6 +10,7 @@ import (
 	"fmt"
 	"os"
 	"path/filepath"
+	"runtime"
 	"runtime/debug"
 	"sort"
 	"strings"
@@ -297,6 +298,18 @@ func RunChild(prop, tier string, seed uint64, batch, nb int, only, outDir string
 	c.stat.DontCare = map[string]int64{}
 	c.stat.Extra = map[string]float64{}
 	c.stat.MaxExtra = map[string]float64{}
+	// resource guard: a library defect must not take the machine down
+	go func() {
+		var ms runtime.MemStats
+		for {
+			time.Sleep(500 * time.Millisecond)
+			runtime.ReadMemStats(&ms)
+			if ms.HeapAlloc > 6<<30 {
+				c.Violation("resource:memory", fmt.Sprintf("child heap grew beyond 6 GiB (%d MiB) while executing the current case", ms.HeapAlloc>>20), nil)
+				os.Exit(0)
+			}
+		}
+	}()
 	func() {
 		defer func() {
 			if r := recover(); r != nil {
